@@ -14,15 +14,18 @@ Reset0 ==
   /\ db' = [m \in Msgs |-> EmptyDB]
   /\ cache' = [m \in Msgs |-> NoSession]
   /\ lost' = [m \in Msgs |-> [k \in LaneKeys |-> FALSE]]
+  /\ staged' = NoStaged
   /\ ev' = [a |-> "Init"]
 
 \* JSON objects arrive as records with the fields of an event.
-E(x) == Event(x.id, x.key, x.type, x.p, x.r)
+E(x) == Event(x.id, x.key, x.type, x.p, x.r, x.nul)
 
 Step(e) ==
   CASE e.a = "Init"         -> Reset0
     [] e.a = "Append"       -> AppendEvent(e.m, E(e.e))
     [] e.a = "AppendBatch"  -> AppendBatch(e.m, E(e.es[1]), E(e.es[2]))
+    [] e.a = "Stage"        -> StageAppend(e.m, E(e.e))
+    [] e.a = "Commit"       -> CommitStaged
     [] e.a = "LeaderAppend" -> LeaderAppend(e.m, E(e.e))
     [] e.a = "CacheLoss"    -> CacheLoss
 
